@@ -16,7 +16,11 @@ CFG = {
             "code-store out of gas, address collision}) with the boundary lattice (exactly enough balance, one wei short of gas / of value, "
             "gas = intrinsic, intrinsic-1, pool remainder, pool+1, price 0, refund exactly at and around the cap); blk: 1-5 signed transactions "
             "through ApplyTransaction step by step and through StateProcessor.Process on an identical world (receipts, gas, root compared), "
-            "one third with an invalid transaction; insert: BlockChain.InsertChain of blocks with an invalid transaction / wrong header gasUsed. "
+            "one third with an invalid transaction; insert: BlockChain.InsertChain of blocks with an invalid transaction / wrong header gasUsed / an EMPTY block claiming gasUsed > 0; "
+            "fastsync: generated valid chains (blocks of 1, 2, 3 and 5-7 mixed transactions over the same behaviour library, homestead/hf5/eip158/byzantium) imported into a "
+            "full node (InsertChain) and a fast node (InsertHeaderChain + InsertReceiptChain with the consensus-encoded receipts); receipts read back through "
+            "GetReceiptsByHash, GetBlockReceipts, GetReceipt and judged per receipt on both nodes (gasUsed = cumulative difference, intrinsic <= gasUsed <= gas limit "
+            "modulo the refund finding, sum = header.gasUsed, TxHash / ContractAddress / log positions, fast = full field by field); srd: the served per-tx gas vs the model. "
             "Non-trivial = the real code accepted the transaction/block (distinct inputs counted).",
     "tie": {"core.(*GasPool).SubGas / AddGas / Gas, core.(*StateTransition).useGas (mini-translator)": "translated (go/ssa -> Lean on every run; gasPool_code_is_model, useGas_code_is_model) + corr",
             "core.IntrinsicGas": "corr (ig cases) + gen (constants TxGas.. from the compiled params package)",
@@ -25,6 +29,8 @@ CFG = {
             "core.ApplyTransaction + loop of StateProcessor.Process": "corr (blk cases) + direct comparison Process == loop + engine.Finalize",
             "BlockValidator.ValidateState gas check, InsertChain rejection": "direct judgement on the real BlockChain",
             "receipt formats (types.NewReceipt, consensus RLP)": "direct judgement + corr (hasRoot/status per receipt)",
+            "core.SetReceiptsData / InsertReceiptChain (fast-sync import path)": "corr (srd cases vs Tx.setReceiptsData_spec; theorems setReceiptsData_sum, setReceiptsData_recovers_gas) + direct judgement of the receipts served by a fast node and a full node",
+            "StateDB refund counter lifetime (Finalise clears it between transactions)": "corr (the model receives what the EVM ADDED to the counter and resets it in `fin`) + direct judgement (counter is 0 when a transaction starts)",
             "vm.EVM.Call/Create contract (gas left <= given, revert on error, ErrInsufficientBalance iff CanTransfer fails)": "assumed in the theorems (C07); checked on every case by the driver (oracleObeysContract) and the harness"},
     "assumptions": ["Go runtime, math/big and the cryptographic primitives are modelled, not verified (DESIGN.md 2.5)",
                     "the general theorems take the EVM as a parameter obeying the contract EvmOk; for the C07 machine the contract is PROVED (evm_contract_over_vm, from C07 leftover_le_given_*, frame_failure_reverts_*, *_terminates, no_modelled_panic) and the *_over_vm theorems carry no EvmOk hypothesis. Residual assumptions there: TxVm.OracleOk (the machine does not interpret the world: its oracle must answer the top-level CanTransfer truthfully and its Create nonce effect must be SetNonce(caller, nonce+1)), Vm.EnvOK (generated gas table); the contract is also checked on every generated case against the real EVM",
